@@ -274,7 +274,13 @@ impl GrandState {
                     }
                 }
 
-                state.current_state = new_state;
+                // A signal that has been caught but not handled yet remains
+                // to be handled with the new action.
+                let pending = state.current_state.pending;
+                state.current_state = TrapState {
+                    pending,
+                    ..new_state
+                };
             }
         }
 
